@@ -348,7 +348,11 @@ pub async fn run(cli: &Cli, report: &mut Report) {
         ];
         // every layer of the configuration disagrees; the environment decides
         v.push(Spec { max_packet_length: 450, expiry: 60, timeout: 3, secret: "operator secret H".into(), from_file: true, layered: 2 });
+        // a secret that a typed configuration layer could take for a number: it is text
+        v.push(Spec { max_packet_length: 450, expiry: 60, timeout: 3, secret: "0042".into(), from_file: true, layered: 2 });
         if thorough {
+            v.push(Spec { max_packet_length: 450, expiry: 60, timeout: 3, secret: "1e3".into(), from_file: true, layered: 2 });
+            v.push(Spec { max_packet_length: 450, expiry: 60, timeout: 3, secret: "TRUE".into(), from_file: true, layered: 2 });
             v.push(Spec { max_packet_length: 1000, expiry: 60, timeout: 18, secret: "operator secret C".into(), from_file: false, layered: 0 });
             v.push(Spec { max_packet_length: 500, expiry: 3600, timeout: 4, secret: "operator secret D".into(), from_file: false, layered: 0 });
         }
